@@ -138,6 +138,15 @@ def cases(mode, scratch, thorough=False, seed=0):
             ps._normalize(np.ones((n, n, n), dtype=np.float32), np.float32(2.0), nthread=2)
         add(f'fourier-helpers-n{n}', 'expand_poles_to_3d/get_smoothing/get_delta_mu2/get_raw_power/normalize_field/shift_field_fft/_normalize', th, modes=('nojit',))
     add('legendre-helpers', 'factorial/n_choose_k/P_n', lambda: [ps.P_n(np.float32(0.3), l) for l in (0, 2, 4, 6, 10)] + [ps.n_choose_k(5, k) for k in range(6)] + [ps.factorial(k) for k in range(5)], modes=('bc',))
+    # ------------------------------------------------------------------ tidal tensor (analysis/shear.py; get_shear_nb does not compile with the installed numba: eigvals is complex)
+    from abacusnbody.analysis import shear as _shear
+    for N in (1, 2, 3, 4):
+        def th_tidal(N=N):
+            d = np.random.default_rng(2).random((N, N, N // 2 + 1)).astype(np.complex64)
+            karr = np.fft.fftfreq(N, d=10.0 / (2 * np.pi * N)).astype(np.float32)
+            _shear.get_tidal(d, karr, N, None)
+            _shear.get_tidal(d, karr, N, 1.5)
+        add(f'get_tidal-N{N}', 'get_tidal', th_tidal, modes=('bc',))
     # ------------------------------------------------------------------ HOD passes
     import hodcommon as hc
     from abacusnbody.hod import GRAND_HOD as G
